@@ -566,10 +566,10 @@ def module_call_hook(ctx: Any, module: Any, evaluate: Sequence[str], log: List[A
                 target = r
         if target is not None:
             name = target.name
-            args = [f.fold(a) for a in e.args]
+            args = fold_args(f, e)
             kwargs = {k.arg: f.fold(k.value) for k in e.keywords if k.arg}
             if (record is not None and name not in record) or (record is None and name in evaluate):
-                return call_fn(ctx, target, args, kwargs, hook, keep=tuple(target.module.functions))
+                return call_fn(ctx, target, args, kwargs, f.hook or hook, keep=tuple(target.module.functions))
             log.append((name, args, kwargs))
             res = results.get(name, ("RESULT-OF", name))
             return res(*args, **kwargs) if callable(res) and not isinstance(res, Abstract) else res
@@ -604,9 +604,9 @@ def ctor_hook(ctx: Any, base_hook: Any = None, only: Optional[Sequence[str]] = N
                     raise Unfoldable(unparse(e))
                 return make_record(fields, [kw[n_] for n_ in fields])
             if isinstance(k, ClassInfo) and (only is None or k.name in only):
-                args = [f.fold(a) for a in e.args]
+                args = fold_args(f, e)
                 kwargs = {x.arg: f.fold(x.value) for x in e.keywords if x.arg}
-                return construct(ctx, k, *args, hook=hook, **kwargs)
+                return construct(ctx, k, *args, hook=f.hook or hook, **kwargs)  # the whole hook chain of the evaluation in progress
         return NotImplemented
 
     return hook
@@ -646,8 +646,28 @@ class APath(_pathlib.PurePosixPath, Abstract):
     def samefile(self, other: Any) -> bool:
         return _pathlib.PurePosixPath(str(self)) == _pathlib.PurePosixPath(str(other))
 
+    FS: List[str] = []  # the files of the abstract file system (absolute, normalised), set by the rule that needs listings
+
     def exists(self) -> bool:
         return True  # the rules speak about paths that exist
+
+    def is_dir(self) -> bool:
+        return not str(self).rsplit("/", 1)[-1].count(".")
+
+    def rglob(self, pattern: str) -> List["APath"]:
+        """every file at any depth under this directory whose name matches the pattern - in an order the caller may not rely on"""
+        import fnmatch
+
+        me = str(self).rstrip("/") + "/"
+        hits = [f_ for f_ in APath.FS if f_.startswith(me) and fnmatch.fnmatchcase(f_.rsplit("/", 1)[-1], pattern)]
+        # deliberately not sorted by name: reversed, so that code relying on the listing order is exposed
+        return [APath(h) for h in reversed(hits)]
+
+    def glob(self, pattern: str) -> List["APath"]:
+        import fnmatch
+
+        me = str(self).rstrip("/") + "/"
+        return [APath(f_) for f_ in reversed(APath.FS) if f_.startswith(me) and "/" not in f_[len(me):] and fnmatch.fnmatchcase(f_[len(me):], pattern)]
 
     def is_file(self) -> bool:
         return True
@@ -746,3 +766,14 @@ def aobj_eq(f: Folder, left: Any, right: Any) -> Any:
                 if not (isinstance(r, ast.AST) or r is NotImplemented or (isinstance(r, Sym) and getattr(r, "_kind_", "") == "NotImplemented")):
                     return r
     return NotImplemented
+
+
+def fold_args(f: Folder, call: ast.Call) -> List[Any]:
+    """positional arguments of a call, `*xs` expanded"""
+    out: List[Any] = []
+    for a in call.args:
+        if isinstance(a, ast.Starred):
+            out.extend(list(f.fold(a.value)))
+        else:
+            out.append(f.fold(a))
+    return out
